@@ -628,4 +628,18 @@ def toRankState (st : PRank) : Refine.Model.Dist.RankState :=
 
 def toDist (w : World PRank) : World Refine.Model.Dist.RankState := w.map toRankState
 
+/-- the vertices a gather assembles (`ref_gather_node`): every rank contributes the vertices it owns; the blocks are
+    contiguous, so rank order is global order -/
+def gatherNodes (w : World PRank) : List Vertex :=
+  w.zipIdx.flatMap fun sr => (sr.1.nodes.filter fun n => n.part == (sr.2 : Int)).map fun n => n.xyz.getD default
+
+/-- `ref_cell_part` on a rank: the part of the cell's vertex with the smallest global id, from the rank's own table -/
+def cellOwnerOf (st : PRank) (nodePer : Nat) (c : Cell) : Int :=
+  Refine.Model.Dist.cellOwner ((c.take nodePer).map fun g => (g, st.partOf g))
+
+/-- the cells of group `k` a gather assembles (`ref_gather_cell`): every rank contributes the cells it owns, rank 0
+    first, in local order -/
+def gatherGroup (w : World PRank) (k nodePer : Nat) : List Cell :=
+  w.zipIdx.flatMap fun sr => (sr.1.group k).filter fun c => cellOwnerOf sr.1 nodePer c == (sr.2 : Int)
+
 end Refine.Model.PartMeshb
